@@ -244,13 +244,14 @@ def cmd_check(prop, tier, jobs, only=None):
                 xfaults.append((r['uid'], 'ENGINE-XCHECK: engine path summary (callees by contract) disagrees with CPython (real callees): %s' % xc['notes']))
         if r['oos']:
             undecided.append((r['uid'], 'out-of-subset: ' + r['oos']))
-        cnt = 0
+        cnt = set()
         for ob in r['obligations']:
             if prop not in (ob.get('props') or [prop]):
                 continue
             k = ob.get('count', 1)
             n_ob += k
-            cnt += k
+            if ob['status'] == 'proved':
+                cnt.add(ob['kind'])
             if ob['status'] == 'proved':
                 n_proved += k
                 backends[ob['backend']] = backends.get(ob['backend'], 0) + k
@@ -310,11 +311,13 @@ def cmd_check(prop, tier, jobs, only=None):
     # baseline comparison (vacuity / disappearing obligations)
     missing = []
     if not only:
-        for uid, cnt in baseline.get('units', {}).items():
+        for uid, kinds in baseline.get('units', {}).items():
             if uid not in per_unit:
                 missing.append('%s (unit missing)' % uid)
-            elif per_unit[uid] < cnt:
-                missing.append('%s (obligations %d < baseline %d)' % (uid, per_unit[uid], cnt))
+            else:
+                gone = sorted(set(kinds) - per_unit[uid])
+                if gone:
+                    missing.append('%s (no discharged obligation of kind %s any more; the baseline tree had them)' % (uid, ','.join(gone)))
 
     # undecided obligations that were proved in the baseline -> violation without input
     base_units = baseline.get('units', {})
@@ -422,10 +425,10 @@ def cmd_baseline(props, tier):
         cnts = {}
         results, _ = cached_run(units, tier, None)
         for r in results:
-            n = sum(ob.get('count', 1) for ob in r['obligations'] if prop in (ob.get('props') or [prop]) and ob['status'] == 'proved')
-            if r['error'] is None and r['oos'] is None and n > 0 and all(
-                    ob['status'] == 'proved' for ob in r['obligations'] if prop in (ob.get('props') or [prop])):
-                cnts[r['uid']] = n
+            mine = [ob for ob in r['obligations'] if prop in (ob.get('props') or [prop])]
+            if r['error'] is None and r['oos'] is None and mine and all(ob['status'] == 'proved' for ob in mine):
+                # obligation *kinds* (not counts: path counts vary with solver models) that the unit discharges
+                cnts[r['uid']] = sorted(set(ob['kind'] for ob in mine if ob['kind'] not in ('pre@callsite',)))
         base.setdefault(prop, {}).setdefault('units', {})
         if tier == 'quick':
             base[prop]['units'] = cnts
